@@ -133,7 +133,9 @@ def run(ctx):
         seen.add(key)
         ctx.finding(key, "%s %s: %s" % (b["desc"]["crystal"], b["desc"].get("hkl", ""), b["complaint"]),
                     {"kind": "failing-input", "case": b, "how": "Classifier().classify(atoms)"})
-    if broken and not ctx.findings:
+    import finder_helpers
+    finder_helpers.check(ctx, broken)
+    if broken and not ctx.unknown_findings():
         ctx.finding("unproved", "conditional theorem no longer checks, no failing structure found", {"kind": "broken-obligation", "broken": broken}, found_input=False)
     ctx.coverage["broken"] = [{"what": k_, "info": i} for k_, i in broken]
     return common.finish(ctx, "other", "pristine slabs (3-5 layers, lateral height >= 10 A, 0-2 on-top adsorbates) and monolayer supercells passing the independent precondition, rotated/translated/permuted",
